@@ -436,6 +436,47 @@ fn run_eval(ast: &str, doc: &str) -> R<String> {
     })
 }
 
+/// C10, patterns the Coq model of the dialect does not cover (Unicode categories, shorthand classes, deep nesting): match()
+/// and search() of the crate over an array of subjects against the `regex` crate applied directly, with the whole-string
+/// wrapper for match.  A differential test of the glue in test_function.rs only: both sides use the same regex engine.
+fn run_rx(pattern: &str, doc: &str) -> R<String> {
+    let p = cps_to_string(&sexp::parse(pattern)?)?;
+    let d = doc_of(&sexp::parse(doc)?)?;
+    let subjects = d.as_array().ok_or("array expected")?.clone();
+    // the pattern as a string literal of the query: a backslash of the pattern is written twice
+    let lit = p.replace('\\', "\\\\");
+    let mut out = vec![];
+    for (fname, full) in [("match", true), ("search", false)] {
+        let q = format!("$[?{}(@, '{}')]", fname, lit);
+        let got: Vec<usize> = match d.query_only_path(&q) {
+            Ok(v) => v
+                .iter()
+                .filter_map(|path| path.trim_start_matches("$[").trim_end_matches(']').parse::<usize>().ok())
+                .collect(),
+            Err(_) => return Ok(format!("QERR\t{}", q)),
+        };
+        let alone = regex::Regex::new(&p);
+        let re = if full { regex::Regex::new(&format!("^(?:{})$", p)) } else { regex::Regex::new(&p) };
+        let want: Vec<usize> = match (alone, re) {
+            (Ok(_), Ok(re)) => subjects
+                .iter()
+                .enumerate()
+                .filter(|(_, s)| s.as_str().map_or(false, |t| re.is_match(t)))
+                .map(|(i, _)| i)
+                .collect(),
+            _ => vec![],
+        };
+        if got != want {
+            out.push(format!("{}: crate {:?} regex {:?}", fname, got, want));
+        }
+    }
+    if out.is_empty() {
+        Ok("OK".to_string())
+    } else {
+        Ok(format!("DIFF\t{}", out.join("; ")))
+    }
+}
+
 /// query string through the three public entry points; they must agree position by position
 fn run_e2e(query: &str, doc: &str) -> R<String> {
     let qs = cps_to_string(&sexp::parse(query)?)?;
@@ -783,6 +824,7 @@ fn main_loop() {
         let res = catch_unwind(AssertUnwindSafe(|| match (f[0], f.len()) {
             ("EVAL", 4) => run_eval(f[2], f[3]),
             ("E2E", 4) => run_e2e(f[2], f[3]),
+            ("RX", 4) => run_rx(f[2], f[3]),
             ("PARSE", 3) => run_parse(f[2]),
             ("REF", 5) => run_ref(f[2], f[3], f[4]),
             ("HIST", 4) => run_hist(f[2], f[3]),
